@@ -597,6 +597,11 @@ func (s *Sim) HTTPDo(port string, req *http.Request) *HTTPCall {
 		return call
 	}
 	b.active++
+	if sb, ok := req.Body.(*SlowBody); ok && b.Srv != nil {
+		// what net/http's server loop would do for this connection: the read deadline of the
+		// whole request is ReadTimeout after its first byte
+		sb.timeout = b.Srv.ReadTimeout
+	}
 	name := fmt.Sprintf("http#%d:%s", len(s.tasks), port)
 	call.Task = s.Spawn(name, KindHTTP, "listener:"+port, func() {
 		b.Handler.ServeHTTP(call.Rec, req)
@@ -611,6 +616,43 @@ func (s *Sim) HTTPDo(port string, req *http.Request) *HTTPCall {
 	}
 	return call
 }
+
+// SlowBody is a request body that arrives in two parts with a (virtual) pause in between - a slow
+// or stalling link, a redirector that streams. If the server has a ReadTimeout shorter than the
+// pause, the second read fails with a timeout, as it does under net/http.
+type SlowBody struct {
+	data    []byte
+	off     int
+	pause   time.Duration
+	timeout time.Duration
+	paused  bool
+}
+
+func NewSlowBody(data []byte, pause time.Duration) *SlowBody {
+	return &SlowBody{data: data, pause: pause}
+}
+
+func (b *SlowBody) Read(p []byte) (int, error) {
+	if b.off >= len(b.data) {
+		return 0, io.EOF
+	}
+	end := len(b.data)
+	if !b.paused && b.off == 0 && len(b.data) > 1 {
+		end = len(b.data) / 2
+	} else if !b.paused {
+		b.paused = true
+		if b.timeout > 0 && b.pause > b.timeout {
+			Sleep(b.timeout)
+			return 0, &net.OpError{Op: "read", Net: "tcp", Err: timeoutErr{}}
+		}
+		Sleep(b.pause)
+	}
+	n := copy(p, b.data[b.off:end])
+	b.off += n
+	return n, nil
+}
+
+func (b *SlowBody) Close() error { return nil }
 
 // DialUpgrade presents a websocket upgrade request to the server at port; the returned
 // call's Conn is the transport the hijacking handler will own.
